@@ -58,8 +58,10 @@ Print Assumptions C11_frame_transport_example.
 
 (* ---- 3. the round trip ------------------------------------------------------------------------------------
    Full statement (every sequence of well-formed operations that fits the peer's limit is read back, whatever the
-   per-message `compress` overrides): REFUTED by the faithful model in two ways; both witnesses are replayed on the
-   implementation by harness/c11.py (corpus/C11/override_*.json, known_findings.d/C11.json). *)
+   per-message `compress` overrides): REFUTED by the faithful model in one way (an override when nothing was negotiated);
+   the witness is replayed on the implementation by harness/c11.py (corpus/C11/override_unnegotiated.json,
+   known_findings.d/C11.json).  A second refutation (override on a connection with context takeover) was repaired in
+   /repo c4741b4 and is now a regression example. *)
 
 (* the toy codec satisfies the four laws the theorems assume of deflate, so the witnesses below are about a lawful codec *)
 Theorem C11_toy_codec_laws :
@@ -71,20 +73,21 @@ Theorem C11_toy_codec_laws :
 Proof. exact (conj toy_trailer (conj toy_fresh (conj toy_step toy_full))). Qed.
 Print Assumptions C11_toy_codec_laws.
 
-(* negotiated permessage-deflate with context takeover: [binary "aa"] [binary "bb", compress=12] [binary "cc"]:
-   the override message is deflated by a NEW compressor, inflated by the peer's ONE decompressor; the third message
-   arrives with another payload *)
-Theorem C11_roundtrip_refuted_override_desync :
-  exists (wc : wcfg) (ops : list sop),
-    let c := peer_cfg wc 0 false in
-    let r := toy_wrun wc (wstate0 toyc) ops in
-    forallb (op_wf c) ops = true /\ all_fit c (wo_sent r) = true
-    /\ exists msgs, expect_all (wo_sent r) = Some msgs /\ fst (toy_feed_all c toy_reader0 [wo_wire r]) <> msgs.
-Proof.
-  exists desync_cfg, desync_ops. destruct desync_witness as (A & B & C & D). cbv zeta in *.
-  split; [exact A|split; [exact B|]]. eexists. split; [exact C|]. rewrite D. discriminate.
-Qed.
-Print Assumptions C11_roundtrip_refuted_override_desync.
+(* REPAIRED (/repo c4741b4): negotiated permessage-deflate with context takeover, [binary "aa"] [binary "bb", compress=12]
+   [binary "cc"].  The override message is deflated by a NEW compressor and inflated by the peer's ONE decompressor; the
+   writer now drops its shared compressor after it, so "cc" starts a fresh stream.  Before the repair the faithful model
+   delivered "cc" as 05 05 (and real zlib delivered `bcabcabcxbca` for `abcabcabcabc`); kept as a regression example. *)
+Example C11_override_then_shared_regression :
+  let wc := mkw false 15 false in
+  let ops := [Send OP_BINARY [97; 97] 0 0; Send OP_BINARY [98; 98] 12 0; Send OP_BINARY [99; 99] 0 0] in
+  let c := peer_cfg wc 0 false in
+  let r := toy_wrun wc (wstate0 toyc) ops in
+  forallb (op_wf c) ops = true /\ safe_overrides wc ops = true /\ all_fit c (wo_sent r) = true
+  /\ toy_feed_all c toy_reader0 [wo_wire r]
+     = ([MBinary [97; 97]; MBinary [98; 98]; MBinary [99; 99]], snd (toy_feed_all c toy_reader0 [wo_wire r]))
+  /\ rd_status (snd (toy_feed_all c toy_reader0 [wo_wire r])) = SPending.
+Proof. exact desync_regression. Qed.
+Print Assumptions C11_override_then_shared_regression.
 
 (* nothing negotiated: [text "hi", compress=15] is sent with RSV1 and the peer fails the connection with 1002 *)
 Theorem C11_roundtrip_refuted_override_unnegotiated :
@@ -104,9 +107,9 @@ Print Assumptions C11_roundtrip_refuted_override_unnegotiated.
    no_context_takeover), every sequence of operations (text / binary / ping / pong / close, sends after close — refused
    ones simply do not appear on the wire), every payload size, every random mask and every segmentation of the wire:
    the reader delivers exactly the accepted operations, in order, with identical payloads, and is still alive —
-   PROVIDED per-message overrides keep the contexts paired (safe_overrides: an override needs the extension to be
-   negotiated, and with context takeover no shared-context message may follow an override once the shared compressor
-   has history).  Missing for the full statement: exactly the two refuted families above. *)
+   PROVIDED a per-message override is only used when the extension was negotiated (safe_overrides).  Overrides on a
+   connection with context takeover are covered: the writer drops its shared compressor after an override message.
+   Missing for the full statement: exactly the refuted family above. *)
 Theorem C11_roundtrip_partial :
   forall (Cc : Type) (cinit : N -> Cc) (comp : bool -> Cc -> bytes -> bytes * Cc)
          (Cx : Type) (decomp : Cx -> bytes -> N -> dres Cx) (Rsync : Cc -> Cx -> Prop),
@@ -162,18 +165,18 @@ Proof. exact roundtrip_toy. Qed.
 Print Assumptions C11_roundtrip_toy.
 
 (* the hypotheses are satisfiable by a non-trivial run: masked, negotiated window 12 with takeover; shared text, an
-   override BEFORE the shared compressor has history is fine, ping, a repeated message (history reuse), close, a
-   refused late text, a pong that a closing writer still sends; max_msg_size 64, decode_text *)
+   override AFTER the shared compressor has history, ping, the first message again (shared context, fresh stream), close,
+   a refused late text, a pong that a closing writer still sends; max_msg_size 64, decode_text *)
 Example C11_roundtrip_partial_nonvacuous :
   let wc := mkw true 12 false in
-  let ops := [Send OP_BINARY [1; 2; 3] 9 11; Send OP_TEXT [104; 105] 0 305419896; Send OP_PING [] 0 5;
+  let ops := [Send OP_TEXT [104; 105] 0 305419896; Send OP_BINARY [1; 2; 3] 9 11; Send OP_PING [] 0 5;
               Send OP_TEXT [104; 105] 0 77; Close 1000 [98; 121; 101] 3; Send OP_TEXT [108] 0 1; Send OP_PONG [7] 0 2] in
   let c := peer_cfg wc 64 true in
   let r := toy_wrun wc (wstate0 toyc) ops in
   forallb (op_wf c) ops = true /\ safe_overrides wc ops = true /\ all_fit c (wo_sent r) = true
   /\ wo_tags r = [TSent PSync; TSent PSync; TSent PPlain; TSent PSync; TSent PPlain; TRefused; TSent PPlain]
   /\ expect_all (wo_sent r)
-     = Some [MBinary [1; 2; 3]; MText [104; 105]; MPing []; MText [104; 105]; MClose 1000 [98; 121; 101]; MPong [7]].
+     = Some [MText [104; 105]; MBinary [1; 2; 3]; MPing []; MText [104; 105]; MClose 1000 [98; 121; 101]; MPong [7]].
 Proof. vm_compute. repeat split. Qed.
 Print Assumptions C11_roundtrip_partial_nonvacuous.
 
